@@ -144,7 +144,8 @@ CHECKS = {
     },
     "C09": {
         "level": "Exhaustive enumeration of all operation histories up to length 8/8/6 (quick) or 10/10/7 "
-        "(thorough) for Stack / SnapshottingInt / ParserState against a full-copy reference model, plus "
+        "(thorough) for Stack / SnapshottingInt / ParserState, and of all canonical Stack histories up to "
+        "length 11 (quick) / 13 (thorough), against a full-copy reference model, plus "
         "Hypothesis random and rule-based-state-machine histories of up to 200 steps. Complete within the "
         "bound, sampled beyond it.",
         "note": "Trusted: the full-copy model (20 lines) and the precondition that ok()/restore() are only "
@@ -154,7 +155,7 @@ CHECKS = {
         "ref": "DESIGN.md 4 C09",
     },
     "C14": {
-        "level": "Exhaustive over every text over {a, e-acute, LF} of length <= 8 (quick) / <= 10 (thorough) x "
+        "level": "Exhaustive over every text over {a, e-acute, LF, blank} of length <= 7 (quick) / <= 9 (thorough) x "
         "every offset x every span, against closed-form line/column arithmetic; Hypothesis texts up to 400 "
         "characters over wide Unicode. Complete within the bound.",
         "note": "Trusted: the closed-form oracle (count/rfind of LF). Only LF line breaks are in the domain; "
